@@ -34,6 +34,11 @@ func VP_C15_Stall() {
 		st := NewSocketServer()
 		st.Address = addr.MustParseAddress("tcp://127.0.0.1:9000")
 		err = st.Startup(chans)
+	case 2: // TLS socket endpoint that requires client certificates
+		st := NewSocketServer()
+		st.Address = addr.MustParseAddress("tcp+tls://127.0.0.1:9443")
+		st.Certificate, st.PrivateKey, st.CaCertificate, st.RequireClientCert = vp05SrvCert, vp05SrvKey, vp05SrvCert, true
+		err = st.Startup(chans)
 	case 1:
 		st := NewPacketServer()
 		st.Address = addr.MustParseAddress("udp://127.0.0.1:9000")
@@ -43,15 +48,28 @@ func VP_C15_Stall() {
 	l := vpS.listeners[0]
 
 	nstalled := vp.Param("stalled")
+	hello := ""
+	if kind == 2 {
+		hello = "TLSHELLO"
+	}
 	for i := 0; i < nstalled; i++ {
 		bad := newVpConn("stalled")
-		if s := vp15StallPoints[vp.Choice("stall-point", len(vp15StallPoints))]; len(s) > 0 {
-			bad.push([]byte(s))
+		sp := vp.Choice("stall-point", len(vp15StallPoints)+2)
+		switch {
+		case kind == 2 && sp == len(vp15StallPoints): // silent before its TLS hello
+		case kind == 2 && sp == len(vp15StallPoints)+1: // inside its TLS hello
+			bad.push([]byte("TLSH"))
+		case sp >= len(vp15StallPoints):
+			vp.Stop()
+		default:
+			if s := hello + vp15StallPoints[sp]; len(s) > 0 {
+				bad.push([]byte(s))
+			}
 		}
 		l.conns <- bad
 	}
 	good := newVpConn("good")
-	good.push([]byte(vpHandshakeScript))
+	good.push([]byte(hello + vpHandshakeScript))
 	l.conns <- good
 	vp.Quiesce()
 
